@@ -67,6 +67,8 @@ type tcase struct {
 	// kind "response" answers it: it goes to the waiting caller, which reads
 	// respRead of it before closing it, and never to the handler
 	respRead string // none start nested all
+	// a second result / error stanza with the id of the answered request follows
+	dupResponse bool
 }
 
 var conds = []string{"bad-format", "conflict", "host-unknown", "not-authorized", "policy-violation", "system-shutdown", "undefined-condition", "not-well-formed"}
@@ -236,6 +238,15 @@ func genCase(t *rapid.T) tcase {
 			tc.respRead = rapid.SampledFrom([]string{"none", "start", "nested", "all"}).Draw(t, "respRead")
 			it.kind = "response"
 			it.raw = `<iq xmlns="` + ns + `" type="result" id="` + ownReqID + `"><query xmlns="urn:verif:resp"><item n="1"><v>t</v></item><item n="2"/></query></iq>`
+		case k == 9 && tc.respRead != "" && rapid.Bool().Draw(t, "dupresponse"):
+			// the request has been answered: another result / error stanza with its
+			// id (a repeated answer, a late error, a peer reusing the id) is an
+			// ordinary top-level element for the handler
+			it.kind = "elem"
+			it.node = xt.El(ns, "iq", []xml.Attr{xt.A("type", rapid.SampledFrom([]string{"result", "error"}).Draw(t, "duptype")), xt.A("id", ownReqID)}, xt.El("urn:verif:resp", "again", nil))
+			it.raw = string(it.node.Bytes(ns))
+			it.prog = genProg(t)
+			tc.dupResponse = true
 		case k == 9:
 			it.kind = "close"
 			it.raw = "</stream:stream>"
@@ -621,6 +632,9 @@ func classify(tc tcase) (nontrivial bool, classes []string) {
 	}
 	if tc.respRead != "" {
 		classes = append(classes, "response-to-own-request-among-the-input", "response-read-"+tc.respRead)
+		if tc.dupResponse {
+			classes = append(classes, "answered-request-id-seen-again")
+		}
 	}
 	if !tc.origin.Equal(jid.JID{}) {
 		classes = append(classes, "address-assigned-during-negotiation")
